@@ -5,12 +5,14 @@ from .common import Violation
 
 
 def run(ctx, *, go_cmds, lean_targets, prop_file, theorems, trace_targets, corr_runs, search_runs,
-        corr_name, driver_args, assumptions=(), trusted=(), leancheck=True, what='real code', spec='proved specification'):
+        corr_name, driver_args, assumptions=(), trusted=(), leancheck=True, gates=False, what='real code', spec='proved specification'):
     common.go_build(go_cmds)
     common.lake_build(lean_targets + ['driver'])
     common.audit(ctx, prop_file, theorems)
     ctx.assumptions += list(assumptions)
     ctx.trusted += list(trusted)
+    if gates:
+        common.gates_tie(ctx)
     tmism = common.trace_tie(ctx, trace_targets) if trace_targets else []
     found = None
     for go_cmd, args in corr_runs:
